@@ -75,17 +75,28 @@ func (m *Manager) syncDB(ctx context.Context) error {
 			return fmt.Errorf("failed to update chain state: %w", err)
 		}
 
-		if err := m.contracts.ProcessActions(index); err != nil {
-			return fmt.Errorf("failed to process contract actions: %w", err)
-		} else if err := m.volumes.ProcessActions(index); err != nil {
-			return fmt.Errorf("failed to process storage actions: %w", err)
-		} else if err := m.settings.ProcessActions(index); err != nil {
-			return fmt.Errorf("failed to process settings actions: %w", err)
-		}
+		// the batch is committed: the in-memory tip must follow the stored
+		// marker even if one of the actions below fails, otherwise the next
+		// sync would apply the same batch a second time
+		err = func() error {
+			defer func() {
+				m.mu.Lock()
+				m.index = index
+				m.mu.Unlock()
+			}()
 
-		m.mu.Lock()
-		m.index = index
-		m.mu.Unlock()
+			if err := m.contracts.ProcessActions(index); err != nil {
+				return fmt.Errorf("failed to process contract actions: %w", err)
+			} else if err := m.volumes.ProcessActions(index); err != nil {
+				return fmt.Errorf("failed to process storage actions: %w", err)
+			} else if err := m.settings.ProcessActions(index); err != nil {
+				return fmt.Errorf("failed to process settings actions: %w", err)
+			}
+			return nil
+		}()
+		if err != nil {
+			return err
+		}
 		log.Debug("synced to new chain index", zap.Stringer("index", index))
 	}
 	return nil
